@@ -1,24 +1,30 @@
 #!/bin/sh
-# dev helper: assemble a crate and run verus on it.  usage: dev_verus.sh langid|locale [extra verus args]
+# dev helper: assemble a crate and run verus on it (human-readable output).  usage: dev_verus.sh langid|locale|bridge
 set -e
 W=${VF_WORK:-/tmp/vfdev}; mkdir -p $W
 which=$1; shift
 python3 - "$which" "$W" <<'PY'
-import sys
+import sys, os
 sys.path.insert(0,'/verif')
-from vf.extract import Overlay, Assembler
+from vf import verus, common
 which,W=sys.argv[1],sys.argv[2]
-crate={'langid':'unic-langid-impl','locale':'unic-locale-impl'}[which]
-ov=Overlay('/verif/contracts/verus/%s.overlay'%which)
-a=Assembler('/repo/'+crate,ov)
-txt=a.assemble('#![feature(allocator_api)]\n#![allow(unused_imports, dead_code, unused_variables, unused_mut, unused_parens, unused_braces)]\n')
+repo=os.environ.get('VERIF_REPO','/repo')
+feats=tuple(x for x in os.environ.get('VF_FEATURES','').split(',') if x)
+if which=='locale':
+    txt,_,errs,_=verus.assemble('langid',repo,tuple(f for f in feats if f=='likelysubtags'))
+    open(W+'/langid.rs','w').write(txt)
+    ok,rlib,vir,r=verus.export_crate('langid',W,tuple(f for f in feats if f=='likelysubtags'))
+    if not ok: print('EXPORT FAILED', r['err'][-2000:])
+txt,_,errs,_=verus.assemble(which,repo,feats)
 open('%s/%s.rs'%(W,which),'w').write(txt)
-for e in a.errors: print('ASSEMBLE-ERROR',e)
+for e in errs: print('ASSEMBLE-ERROR',e)
 PY
 R=$(ls /verif/.build/tinydep/debug/deps/libtinystr-*.rlib)
 cd $W
+F=""
+for f in $(echo "$VF_FEATURES" | tr ',' ' '); do F="$F --cfg feature=\"$f\""; done
 if [ "$which" = langid ]; then
-  verus langid.rs --crate-type=lib --crate-name unic_langid_impl --extern tinystr=$R -L dependency=/verif/.build/tinydep/debug/deps --multiple-errors 10 "$@"
+  eval verus langid.rs --crate-type=lib --crate-name unic_langid_impl --extern tinystr=$R -L dependency=/verif/.build/tinydep/debug/deps --multiple-errors 10 $F "$@"
 else
-  verus locale.rs --crate-type=lib --crate-name unic_locale_impl --extern tinystr=$R --extern unic_langid_impl=$W/libunic_langid_impl.rlib --import unic_langid_impl=$W/langid.vir -L dependency=/verif/.build/tinydep/debug/deps --multiple-errors 10 "$@"
+  eval verus locale.rs --crate-type=lib --crate-name unic_locale_impl --extern tinystr=$R --extern unic_langid_impl=$W/libunic_langid_impl.rlib --import unic_langid_impl=$W/langid.vir -L dependency=/verif/.build/tinydep/debug/deps --multiple-errors 10 $F "$@"
 fi
